@@ -57,7 +57,40 @@ def model_specs(tier):
         yield "agg", dt, c06.model("agg", dt, "three", 0.5, 1.5, "none", False, None)
 
 
+def layout_specs(tier):
+    """shapes of the saved-state table: one compartment per population (neighbouring rows carry the same compartment name), 2-3 populations,
+    a population type with a single compartment next to an ordinary one"""
+    for dt in (0.25, 1.0):
+        for npop in (1, 2, 3):
+            pops = ["pa", "pb", "pc"][:npop]
+            spec = dict(
+                comps=[dict(name="a", kind="ord", init={p: 100.0 / (i + 1) for i, p in enumerate(pops)})],
+                pars=[dict(name="g", fmt="number", fn="a*0.5")],
+                links=[],
+                characs=[],
+                pops=pops,
+                sim=[S0, S0 + 3, dt],
+            )
+            if npop > 1:
+                spec["transfers"] = [dict(name="mig", units="rate", pairs={f"{pops[i]}>{pops[i + 1]}": 0.1 * (i + 1) for i in range(npop - 1)})]
+            yield f"one_compartment_{npop}_pops", dt, spec
+        spec = dict(
+            comps=[dict(name="a", kind="ord", init=100.0, ptype="ta"), dict(name="b", kind="ord", init=10.0, ptype="ta"), dict(name="x", kind="ord", init={"pb": 30.0, "pc": 5.0}, ptype="tb")],
+            pars=[dict(name="r1", fmt="rate", val=0.4, ptype="ta")],
+            links=[["a", "b", "r1"]],
+            characs=[],
+            ptypes=["ta", "tb"],
+            pops=["pa", "pb", "pc"],
+            pop_types={"pa": "ta", "pb": "tb", "pc": "tb"},
+            sim=[S0, S0 + 3, dt],
+            transfers=[dict(name="mig", units="rate", pairs={"pb>pc": 0.2}, ptype="tb")],
+        )
+        yield "single_compartment_type", dt, spec
+
+
 def cases(tier):
+    for name, dt, spec in layout_specs(tier):
+        yield dict(name=name, dt=dt, spec=spec, depth=2)
     for name, dt, spec in model_specs(tier):
         yield dict(name=name, dt=dt, spec=spec, depth=2 if tier == "quick" else 3)
 
